@@ -10,6 +10,11 @@ from lib.common import build_props, coq_eval, WORK, REPO, VERIF, PY
 
 GROUPS = ['GenAsync', 'GenStruct']
 SLACK = {'fork': 4.0, 'forkserver': 7.0, 'spawn': 8.0, 'threading': 4.0}
+CAL = {}
+
+
+def slack(sm):
+    return SLACK[sm] + 6.0 * CAL.get(sm, 0.0)
 
 
 def gen_quiet(rng, k, sms):
@@ -117,7 +122,7 @@ def oracle(rec):
                     return f"overrun apply: task {key} blocks for {sc['dur']}s with timeout {t}s but ended as {str(v)[:100]}"
             elif v != ['ok', S.ref_call('scalar', key)]:
                 return f"overrun apply: task {key} does not overrun but ended as {str(v)[:120]}"
-        lim = len(bl) * t + SLACK[sm] + 2
+        lim = len(bl) * t + slack(sm) + 2
         if out['wall'] > lim:
             return f"overrun apply: {len(bl)} overrunning task(s) with timeout {t}s: batch took {out['wall']:.1f}s (> {lim:.1f}s)"
         return None
@@ -128,7 +133,7 @@ def oracle(rec):
         return f"{sc['mode']}: {len(blocked)} function call(s) block for {sc['dur']}s with timeout {t}s but the call returned"
     if out['exc']['type'] != 'TimeoutError':
         return f"{sc['mode']}: raised {out['exc']['type']}: {out['exc']['args'][:140]} instead of TimeoutError"
-    lim = t + SLACK[sm]
+    lim = t + slack(sm)
     if out['wall'] > lim:
         return (f"{sc['mode']}: {sc['nblock']} worker(s) block for {sc['dur']}s, timeout {t}s: TimeoutError only after {out['wall']:.1f}s "
                 f"(> {lim:.1f}s)")
@@ -177,6 +182,7 @@ def run(ctx):
     rng = random.Random(ctx['seed'] + 8)
     t0 = time.time()
     proof = build_props('C08', GROUPS)
+    CAL.update(runner.calibrate())
     quick = ctx['tier'] == 'quick'
     sms = ['fork', 'fork', 'threading', 'forkserver', 'spawn']
     scens = [gen_quiet(rng, k, sms) for k in range(24 if quick else 200)]
@@ -234,6 +240,7 @@ def replay(payload):
     if payload.get('kind') == 'kernel':
         print('kernel case', payload['case'])
         return 1
+    CAL.update(runner.calibrate())
     recs = runner.run_many([payload['scenario']], 'replay', jobs=1, keep=True)
     bad, hangs = analyse(recs)
     print("status:", recs[0]['status'])
